@@ -79,6 +79,11 @@ def gen_io(rng, tier):
     for v in range(n):
         u2 = set()
         labels.append([ident(rng, u2, kw=rng.random() < .2) for _ in range(card[v])])
+        if rng.random() < .12 and card[v] >= 1:
+            # a state whose name IS a word of the file formats (a thermostat has a state "default", a report a state "table")
+            w = rng.choice(["default", "table", "default", "table", "probability", "variable"])
+            if w not in labels[-1]:
+                labels[-1][rng.randrange(card[v])] = w
     cpds = []
     for v in range(n):
         ps = list(par[v])
